@@ -176,7 +176,8 @@ def validator_boundaries():
     n = 0
 
     def blk(height, prev, value):
-        cb = Transaction([Input(OutputReference(b'\x00' * 32, 0), CoinbaseData(height, b''))], [Output(value, pk)])
+        values = value if isinstance(value, (list, tuple)) else [value]
+        cb = Transaction([Input(OutputReference(b'\x00' * 32, 0), CoinbaseData(height, b''))], [Output(v, pk) for v in values])
         s = BlockSummary(height, prev, cb.hash(), 1_700_000_000 + height % 1000, b'\xff' * 32, 0)
         return Block(BlockHeader(s, PowEvidence(b'\x01' * 32, b'\x02' * 32, b'\x03' * 32)), [cb])
     zero = CoinState.zero()
@@ -187,17 +188,25 @@ def validator_boundaries():
                 continue
             parent = blk(h - 1, gen.hash(), 1)
             cs = zero.add_block_no_validation(parent)
-            for extra, expect_ok in ((0, True), (1, False)):
+            sub = ref(h)
+            shapes = [(sub, True, 'subsidy(%d)' % h), (sub + 1, False, 'subsidy(%d)+1' % h)]
+            if d == 0 and sub >= 4:
+                # the same bound with the reward split over several outputs (equal values, unequal values)
+                shapes += [([sub, sub], False, 'two outputs of subsidy(%d) each' % h),
+                           ([sub // 2, sub - sub // 2], True, 'subsidy(%d) split in two' % h),
+                           ([sub // 2, sub // 2, sub // 2], False, 'three outputs of half the subsidy'),
+                           ([1, 1, sub - 1], False, 'outputs 1, 1, subsidy-1'), ([1, 1, sub - 2], True, 'outputs 1, 1, subsidy-2')]
+            for value, expect_ok, label in shapes:
                 n += 1
-                cand = blk(h, parent.hash(), ref(h) + extra)
+                cand = blk(h, parent.hash(), value)
                 try:
                     C.validate_coinbase_transaction_in_coinstate(cand.transactions[0], cand, cs)
                     ok = True
                 except Exception:
                     ok = False
                 if ok != expect_ok and len(bad) < 6:
-                    bad.append(('validator-reward-bound', "at height %d a reward of subsidy(%d)%s = %d is %s by the validator" % (
-                        h, h, '+1' if extra else '', ref(h) + extra, 'accepted' if ok else 'refused'), h))
+                    bad.append(('validator-reward-bound', "at height %d a reward of %s (total %d, subsidy %d) is %s by the validator" % (
+                        h, label, sum(value) if isinstance(value, list) else value, sub, 'accepted' if ok else 'refused'), h))
     return n, bad
 
 
